@@ -11,12 +11,12 @@ use pdf::primitive::{Date, Dictionary, PdfString, Primitive, TimeRel};
 use serde_json::{json, Value};
 
 const NPAGES: &[&str] = &["1-page", "0-pages", "2-pages", "3-pages"];
-const OPSETS: &[&str] = &["marker-only", "empty", "path+paint", "text", "colors+state", "shorthand-s-b", "shorthand-quote", "shorthand-TD", "shorthand-v-y", "marked-content"];
+const OPSETS: &[&str] = &["marker-only", "empty", "path+paint", "text", "colors+state", "shorthand-s-b", "shorthand-quote", "shorthand-TD", "shorthand-v-y", "marked-content", "inline-images"];
 const BOX: &[&str] = &["letter", "absent", "non-integer", "negative-origin"];
 const OPTBOX: &[&str] = &["absent", "present", "non-integer"];
 const ROTATE: &[&str] = &["0", "90", "-90", "270"];
 const OTHER: &[&str] = &["none", "int", "nested-dict", "name", "string+array"];
-const RES: &[&str] = &["none", "font", "ext-gstate", "both"];
+const RES: &[&str] = &["none", "font", "ext-gstate", "both", "colour-spaces"];
 const INFO: &[&str] = &["none", "title-only", "all-fields"];
 const PRIM: &[&str] = &["none", "metadata-dict"];
 
@@ -38,7 +38,8 @@ fn opset(i: usize, marker: usize) -> Vec<Op> {
         6 => ops.extend([Op::BeginText, get("WordSpacing"), get("CharSpacing"), Op::TextNewline, get("TextDraw"), Op::TextNewline, get("TextDraw:binary"), Op::EndText]),
         7 => ops.extend([Op::BeginText, Op::Leading { leading: 14.0 }, Op::MoveTextPosition { translation: pt(10.0, -14.0) }, Op::Leading { leading: 3.0 }, Op::MoveTextPosition { translation: pt(-3.0, 5.0) }, Op::EndText]),
         8 => ops.extend([get("MoveTo"), get("CurveTo:c1=current"), get("CurveTo:c2=p"), get("Rect"), Op::CurveTo { c1: pt(0.0, 1.0), c2: pt(2.0, 2.0), p: pt(3.0, 3.0) }, Op::Close, Op::CurveTo { c1: pt(1.0, 2.0), c2: pt(2.0, 2.0), p: pt(3.0, 3.0) }, Op::Stroke]),
-        _ => ops.extend([get("BeginMarkedContent:props"), get("MarkedContentPoint:props"), get("XObject"), Op::EndMarkedContent]),
+        9 => ops.extend([get("BeginMarkedContent:props"), get("MarkedContentPoint:props"), get("XObject"), Op::EndMarkedContent]),
+        _ => ops.extend([get("InlineImage"), get("Save"), get("InlineImage:filters"), get("InlineImage:indexed"), get("InlineImage:built"), get("InlineImage:mask"), get("InlineImage:parms"), get("Restore")]),
     }
     ops
 }
@@ -156,6 +157,11 @@ pub fn builder_case(ch: &mut Chooser, t: &mut Tally) {
                 let gs = GraphicsStateParameters::from_primitive(Primitive::Dictionary(d), &NoResolve).map_err(|e| (format!("gs-error:{}", err_variant(&e)), String::new()))?;
                 resources.graphics_states.insert("GS1".into(), gs);
             }
+            if s.res == 4 {
+                for (name, cs) in colour_spaces() {
+                    resources.color_spaces.insert(name.into(), cs);
+                }
+            }
             pages.push(PageBuilder {
                 ops: s.ops.clone(),
                 media_box: s.media,
@@ -199,6 +205,23 @@ pub fn builder_case(ch: &mut Chooser, t: &mut Tally) {
             t.fail("c10.builder", &kind, ch.deviations(), detail, ch.replay_value("c10.builder"));
         }
     }
+}
+
+/// colour spaces the model can hold without needing other objects
+fn colour_spaces() -> Vec<(&'static str, ColorSpace)> {
+    let mut cal = Dictionary::new();
+    cal.insert("WhitePoint", Primitive::Array(vec![Primitive::Number(0.9505), Primitive::Integer(1), Primitive::Number(1.089)]));
+    cal.insert("Gamma", Primitive::Number(2.2));
+    vec![
+        ("CsGray", ColorSpace::DeviceGray),
+        ("CsRgb", ColorSpace::DeviceRGB),
+        ("CsCmyk", ColorSpace::DeviceCMYK),
+        ("CsPattern", ColorSpace::Pattern),
+        ("CsCal", ColorSpace::CalGray(cal)),
+        ("CsSmall", ColorSpace::Indexed(Box::new(ColorSpace::DeviceGray), 3, vec![0u8, 85, 170, 255].into())),
+        ("CsBig", ColorSpace::Indexed(Box::new(ColorSpace::DeviceRGB), 255, (0..768u32).map(|i| (i % 251) as u8).collect::<Vec<u8>>().into())),
+        ("CsOther", ColorSpace::Other(vec![Primitive::Name("Lab".into()), Primitive::Dictionary(Dictionary::new())])),
+    ]
 }
 
 fn check_built(bytes: &[u8], specs: &[PageSpec], info_kind: usize) -> std::result::Result<(), (String, String)> {
@@ -267,6 +290,17 @@ fn check_built(bytes: &[u8], specs: &[PageSpec], info_kind: usize) -> std::resul
         let res = page.resources().map_err(|e| (format!("resources-error:{}", err_variant(&e)), format!("page {}", i)))?;
         let want_font = s.res == 1 || s.res == 3;
         let want_gs = s.res == 2 || s.res == 3;
+        if s.res == 4 {
+            for (name, cs) in colour_spaces() {
+                match res.color_spaces.get(name) {
+                    Some(got) if format!("{:?}", got) == format!("{:?}", cs) => {}
+                    got => return Err(("colour-space".into(), format!("page {}: /{} built {:?} reloaded {:?}", i, name, cs, got))),
+                }
+            }
+            if res.color_spaces.len() != colour_spaces().len() {
+                return Err(("colour-space".into(), format!("page {}: {} colour spaces", i, res.color_spaces.len())));
+            }
+        }
         if res.fonts.len() != want_font as usize || res.graphics_states.len() != want_gs as usize {
             return Err(("resources".into(), format!("page {}: fonts {} gs {}", i, res.fonts.len(), res.graphics_states.len())));
         }
@@ -327,7 +361,7 @@ pub fn run(tier: Tier, _seed: u64, tally: &mut Tally) -> CheckMeta {
     CheckMeta {
         prop: "C10",
         level: "model_checking",
-        rule: format!("PdfBuilder inputs with <= {} deviations from 'one page, marker text only, letter media box': number of pages (0..3), per page: 10 operation sets (from the C08 alphabet incl. every shorthand trigger), media/crop/trim box (absent, integer, non-integer, negative/huge), rotation, 5 kinds of extra entries, resources (font created through the updater, ext-gstate, both), metadata entry; info dictionary (none, title only, all fields incl. dates and trapped). Each build is (1) reloaded with the library: page count, order by marker, boxes, rotation, extras, operation sequences, resources, info; (2) read by the independent structural reader: header first, startxref -> xref section, every in-use entry -> matching object header, /Size above every number, every /Length = byte count, no reference to an undefined object. Distinct by hash of the built bytes.", bound),
+        rule: format!("PdfBuilder inputs with <= {} deviations from 'one page, marker text only, letter media box': number of pages (0..3), per page: 11 operation sets (from the C08 alphabet incl. every shorthand trigger), media/crop/trim box (absent, integer, non-integer, negative/huge), rotation, 5 kinds of extra entries, resources (font created through the updater, ext-gstate, both, eight colour spaces incl. an indexed table too large for a string), metadata entry; info dictionary (none, title only, all fields incl. dates and trapped). Each build is (1) reloaded with the library: page count, order by marker, boxes, rotation, extras, operation sequences, resources, info; (2) read by the independent structural reader: header first, startxref -> xref section, every in-use entry -> matching object header, /Size above every number, every /Length = byte count, no reference to an undefined object. Distinct by hash of the built bytes.", bound),
         assumptions: vec!["operation sets only use operations the serializer accepts (no inline images)".into()],
         exhaustive: true,
         bounds: json!({"deviations": bound, "pages": 3}),
